@@ -75,6 +75,17 @@ def c24b(tier, seed):
         J(STO, "VerifK24bReadStartingWithUserKey", str=1, ufs=1, oids=1, conds=0, timeout_ms=60000),
         J(STO, "VerifK24bFamiliesDisjoint", str=1 if q else 2, timeout_ms=60000),
     ]
+    # the same contextual tuple may be listed more than once (nothing rejects that): soundness of the invariant key
+    # over such requests, two tuples per side, shape space split by pins
+    d1 = J(STO, "VerifK24bInvariantInjective", str=1, tuples=2, dups=1, timeout_ms=120000, max_paths=40000)
+    d1["params"].update({"pin.an": 2, "pin.bn": 0})
+    d2 = J(STO, "VerifK24bInvariantInjective", str=1, tuples=2, dups=1, timeout_ms=120000, max_paths=40000)
+    d2["params"].update({"pin.an": 2, "pin.bn": 2, "pin.actx": 0, "pin.bctx": 0, "pin.at0shape": 2, "pin.at1shape": 2, "pin.bt0shape": 2, "pin.bt1shape": 2})
+    jobs += [d1, d2]
+    if not q:
+        d3 = J(STO, "VerifK24bInvariantInjective", str=1, tuples=2, dups=1, timeout_ms=120000, max_paths=40000)
+        d3["params"].update({"pin.an": 2, "pin.bn": 1})
+        jobs.append(d3)
     if not q:
         for ka in range(8):  # depth 1, two children per container: split over the kind of tree a's root
             j = J(KEYS, "VerifK24bPbValueInjective", depth=1, w=2, str=2, timeout_ms=60000)
@@ -157,6 +168,6 @@ SPEC = {
 
 C24B = {
     "level_text": "K24b: PbValue.WriteTo is injective up to semantic equality and prefix-free on value trees (all pairs of shapes of depth <= 1, payloads symbolic), insensitive to map insertion order; Tuple.WriteTo is injective and sequences of tuples are uniquely decodable; InvariantCacheKey's pre-digest bytes (recorded at (*keys.Digest).Write) are equal iff store, model, context and the set of contextual tuples are semantically equal, and are invariant under permutation of contextual tuples and context fields; CheckCacheKey, ReadKey, ReadUsersetTuplesKey, ReadStartingWithUserKey (inner pre-digest bytes + outer key) are injective up to reordering of their filter lists; keys of different families never coincide",
-    "level_note": "bounds: strings <= 1..2 bytes; filter lists <= 1 (quick) / 2 entries; contextual tuples <= 1 / 2 per side; in the composition harness every string except store/model has a fixed length (length framing is K24a's); preconditions: no two contextual tuples share object, relation and user; type/relation names contain no '#'/':' and objects no '#'; ObjectIDs nil or non-empty; numbers from a concrete set (engine keeps floats concrete)",
-    "assumptions": ["digest collisions excluded (pre-digest bytes are compared)", "request validation rejects duplicate contextual tuples", "tuple grammar: no '#' in objects, no '#'/':' in type and relation names"],
+    "level_note": "bounds: strings <= 1..2 bytes; filter lists <= 1 (quick) / 2 entries; contextual tuples <= 1 / 2 per side; in the composition harness every string except store/model has a fixed length (length framing is K24a's); preconditions: no two contextual tuples share object, relation and user (the dups=1 jobs drop this and claim soundness only: equal keys imply equal inputs); type/relation names contain no '#'/':' and objects no '#'; ObjectIDs nil or non-empty; numbers from a concrete set (engine keeps floats concrete)",
+    "assumptions": ["digest collisions excluded (pre-digest bytes are compared)", "contextual tuples with pairwise different (object, relation, user), except in the dups=1 jobs (two tuples per side, soundness only)", "tuple grammar: no '#' in objects, no '#'/':' in type and relation names"],
 }
